@@ -256,6 +256,18 @@ func buildIntrinsics() map[string]intrinsic {
 		m.regions = append(m.regions, region{m.goString(a[0], "Region id"), a[1].(*sym.Term)})
 		return nil
 	}
+	t[apiPkg+".Concurrent"] = func(m *Machine, fr *frame, a []Value) Value {
+		m.threadLayer().prefix = m.goString(a[0], "Concurrent prefix")
+		return nil
+	}
+	t[apiPkg+".Go"] = func(m *Machine, fr *frame, a []Value) Value {
+		m.threadGo(m.goString(a[0], "Go name"), a[1])
+		return nil
+	}
+	t[apiPkg+".Join"] = func(m *Machine, fr *frame, a []Value) Value {
+		m.threadJoin()
+		return nil
+	}
 	t[apiPkg+".Cover"] = func(m *Machine, fr *frame, a []Value) Value {
 		m.res.Covers = append(m.res.Covers, m.goString(a[0], "Cover label"))
 		return nil
